@@ -50,6 +50,9 @@ def fatal_init(body, bb, t):
 
 
 def run(facts, chk, tier, only=None):
+    from . import buildops
+    # the parallel build, functionally: sample i owns name i and column i for every recursion depth
+    chk.guard('C11.func', 'C11.func:parallel_append', lambda: buildops.check_parallel_append(facts, chk, 'C11.func', tier))
     main = facts.fn('main')
     # ---------------------------------------------------------------- pool
     def pool():
@@ -193,50 +196,12 @@ def run(facts, chk, tier, only=None):
             chk.violation('C11.bridge', 'C11.bridge:distance', where='merge_ska_array::MergeSkaArray::distance',
                           detail='distance rows are not gathered by an indexed collect (collect=%s source=%s unordered=%s)' % (coll, src, unordered))
 
-    # ---------------------------------------------------------------- writer i <- column i (map)
-    def column():
-        pa = facts.fn('ska_ref::RefSka::pseudoalignment')
-        eb = ExprBuilder(pa, through_mut_borrow=True)
-        fe = [(bb, t) for bb, t in pa.calls() if (t.callee.name or '').endswith('ParallelIterator::for_each')]
-        if len(fe) != 1:
-            raise AnchorLost('pseudoalignment: %d parallel for_each calls' % len(fe))
-        src = eb.operand(fe[0][1].args[0])
-        ssrc = show(src)
-        chain_ok = src[0] == 'call' and src[1].endswith('IndexedParallelIterator::enumerate') and src[2][0][0] == 'call' and \
-            src[2][0][1].endswith('par_iter_mut') and 'seq_writers' in show(ExprBuilder(pa, through_vars=False).operand(
-                pa.blocks[src[2][0][3]].term.args[0]))
-        cl = [x[1][8:] for x in subexprs(eb.operand(fe[0][1].args[1])) if x[0] == 'agg' and x[1].startswith('closure:')]
-        if len(cl) != 1:
-            raise AnchorLost('pseudoalignment: parallel closure not found')
-        c = facts.bodies[cl[0]]
-        ebc = ExprBuilder(c)
-        conv = [(bb, t) for bb, t in c.calls() if 'SliceInfoElem' in (t.callee.full or '') and 'From<usize>' in (t.callee.full or '')]
-        wr = [(bb, t) for bb, t in c.calls() if (t.callee.name or '').endswith('AlnWriter::write_split_kmer') or (t.callee.name or '').endswith('AlnWriter::finalise')]
-        if len(conv) != 1 or len(wr) < 2:
-            raise AnchorLost('pseudoalignment closure: %d column index conversions, %d writer calls' % (len(conv), len(wr)))
-        idx_e = ebc.operand(conv[0][1].args[0])
-        writers = {show(ebc.operand(t.args[0])) for _, t in wr}
-        idx_ok = idx_e == ('field', ('arg', 2, c.local_names.get(2) or '_2'), 0)
-        wr_ok = writers == {'&*%s.1' % (c.local_names.get(2) or '_2')}
-        # the sliced array is mapped_variants, axis 1 (second position of s![.., idx])
-        mv = facts.field_index('ska_ref::RefSka', 'mapped_variants')
-        sl = [(bb, t) for bb, t in c.calls() if (t.callee.name or '').endswith('::slice')]
-        arr_ok = len(sl) == 1 and ('self.%d' % mv) in show(ebc.operand(sl[0][1].args[0])).replace('*', '')
-        si = show(ebc.operand(sl[0][1].args[1])) if sl else ''
-        axis_ok = 'array(from(adt:std::ops::RangeFull::RangeFull()), from(' in si
-        return chain_ok, idx_ok, wr_ok, arr_ok and axis_ok, ssrc[:120], show(idx_e), sorted(writers), fe[0][1].span
-    r = chk.guard('C11.column', 'C11.column:pseudoalignment', column)
-    if r is not None:
-        chain_ok, idx_ok, wr_ok, arr_ok, ssrc, idx_s, writers, sp = r
-        if chain_ok and idx_ok and wr_ok and arr_ok:
-            chk.ok('C11.column', 'C11.column:pseudoalignment', sp,
-                   'writer i (element of seq_writers.par_iter_mut().enumerate()) receives column i of mapped_variants: s![.., %s]' % idx_s,
-                   sample=dict(source=ssrc, column_index=idx_s, writer=writers))
-        else:
-            chk.violation('C11.column', 'C11.column:pseudoalignment', where=sp,
-                          detail='cannot establish that the writer of sample i receives column i for every thread count: source chain is '
-                                 'enumerate(par_iter_mut(seq_writers))=%s (%s); column index is the enumerate index=%s (%s); writer is the paired element=%s %s; '
-                                 'sliced array/axis ok=%s' % (chain_ok, ssrc, idx_ok, idx_s, wr_ok, writers, arr_ok))
+    # ---------------------------------------------------------------- writer i <- column i (map), functional
+    # RefSka::pseudoalignment interpreted with rayon modelled as an index-ordered sequential schedule: for 1..5 samples and
+    # thread arguments 1..4 (thorough: 1..7 samples, threads up to 8) writer s holds the alignment of column s.  Replaces
+    # the shape rule on enumerate(par_iter_mut(..)) / s![.., idx], which lost its anchors on an iterator-chain rewrite.
+    from . import c04
+    chk.guard('C11.column', 'C11.column:pseudoalignment', lambda: c04.check_pseudoalignment(facts, chk, 'C11.column', tier))
 
     # ---------------------------------------------------------------- offsets
     def offsets():
